@@ -17,12 +17,14 @@ func init() {
 }
 
 func runC20(p *Program, r *Report) {
-	r.Explanation = "The matrix package's MulV, MulM, Transpose, Dot, MulS and Inverse and ciexyz's primaries-matrix generators are extracted from go/ssa as exact rational-function normal forms over symbolic entries (for all 3x3 matrices at once) and compared with the textbook polynomials: 9+9+9+1+3 entry identities, the Leibniz determinant, M·N = N·M = I (18 identities), panic iff det == 0, and for the generators: T·(1,1,1) = white XYZ, column i parallel to primary i, From = Inverse(To). Decided: the algebra (exact arithmetic), i.e. correctness for every non-degenerate input. Not decided: float64 rounding of these exact identities (the 1e-9 × condition number figure) and cancellation behaviour for exactly singular float inputs."
+	r.Explanation = "The matrix package's MulV, MulM, Transpose, Dot, MulS and Inverse and ciexyz's primaries-matrix generators are extracted from go/ssa as exact rational-function normal forms over symbolic entries (for all 3x3 matrices at once) and compared with the textbook polynomials: 9+9+9+1+3 entry identities, the Leibniz determinant, M·N = N·M = I (18 identities), panic iff det == 0, and for the generators: T·(1,1,1) = white XYZ, column i parallel to primary i, From = Inverse(To). Decided: the algebra (exact arithmetic), i.e. correctness for every non-degenerate input. (singular) for a zero column and for two equal columns the determinant expression AS WRITTEN reduces to exactly 0.0 by IEEE-exact rewriting, so the documented panic fires — assuming no fused multiply-add contraction (GOAMD64=v1 / amd64 default) and finite entries. Not decided: float64 rounding of the exact identities (the 1e-9 × condition number figure)."
 	r.RuleText = "one instance per polynomial identity / structural clause; non-trivial = identities over symbolic entries (each fails if a sign, index or operand is changed)"
 	r.Trusted = []string{"go/packages+go/types+go/ssa (x/tools v0.29.0)", "the abstract interpreter and polynomial normal forms (checker/sym*.go, poly.go)"}
 	r.Assumptions = []string{"float64 arithmetic approximates the exact rational identities (rounding not analysed)"}
 	checkMatrixAlgebra(p, r, "C20")
 	checkPrimariesGenerators(p, r, "C20")
+	checkSingularPanics(p, r, "C20.singular")
+	r.Floor("C20.singular", 6)
 	r.Floor("C20.mulv", 3)
 	r.Floor("C20.mulm", 9)
 	r.Floor("C20.transpose", 9)
